@@ -7,6 +7,9 @@ CONSTANTS
   MaxT = 1
   Phases <- compress_t_Phases
   ShapeSet <- compress_t_Shapes
+  Signers = {"s1", "s2"}
+  Recipients = {"r1", "r2"}
+  Policies <- compress_t_Policies
   CfgName = "compress_t"
 INIT Init
 NEXT Next
